@@ -228,6 +228,8 @@ def call_function(fr, qual, args, kw, extra, n):
                         node = k.value
             if isinstance(node, ast.Name) and node.id in fr.env:
                 fr.update_name(node.id, new)
+            elif isinstance(node, ast.Attribute) and isinstance(node.value, ast.Name) and fr.env.get(node.value.id, ('?',))[0] == 'obj':
+                fr.place_set(node, new)                  # f(self.x): in-place update of the attribute's value
             elif isinstance(node, ast.Subscript) and isinstance(node.value, ast.Name) and node.value.id in fr.env:
                 k_ = fr.ex(node.slice) if not isinstance(node.slice, ast.Slice) else None
                 if k_ is not None:
